@@ -52,6 +52,13 @@ type GenOpt struct {
 	Commits  int
 	DatInLFS bool   // *.dat files are committed as pointers and tracked (export histories)
 	Fixup    string // "", "plain", "attrs-added-later", "attrs-removed-later", "nested", "macro"
+	// FixupOverrides (with Fixup "plain"): the tracked pattern *.dat is partly taken back by
+	// later lines / a nested file in the forms migrate itself writes:
+	//   a/b/*.dat !text !filter !merge !diff            (what `migrate export --include` appends)
+	//   c[[:space:]]d/*.dat !text -filter -merge -diff   (what `migrate import --exclude` appends)
+	//   é/.gitattributes: *.dat !filter !diff !merge      (nested override)
+	// Raw files below those directories are NOT LFS files according to Git.
+	FixupOverrides bool
 	// NestedDatAttrs: (export histories) files below a/ are tracked by a/.gitattributes in addition to the root pattern
 	NestedDatAttrs   bool
 	Exotic           string // at most one exotic commit feature per case ("" = none)
@@ -238,6 +245,10 @@ func (g *Gen) initialTree() Tree {
 	switch g.opt.Fixup {
 	case "plain", "attrs-removed-later":
 		lines = append(lines, "*.dat "+lfsAttrs)
+		if g.opt.FixupOverrides {
+			lines = append(lines, "a/b/*.dat !text !filter !merge !diff", "c[[:space:]]d/*.dat !text -filter -merge -diff")
+			t["é/.gitattributes"] = g.attrsBlob("# not in LFS below this directory", "*.dat !filter !diff !merge")
+		}
 	case "macro":
 		lines = append(lines, "[attr]lfsmacro "+lfsAttrs, "*.dat lfsmacro")
 	case "nested":
@@ -451,6 +462,10 @@ func (g *Gen) build() {
 	g.put(t, "c d/x y.dat", g.content(), "100644")
 	g.put(t, "img.png", g.bytes(50+g.r.Intn(2500), false), "100644")
 	g.put(t, "notes.txt", []byte("hello\n"), "100644")
+	if g.opt.FixupOverrides {
+		g.put(t, "a/b/big.dat", g.bytes(1200+g.r.Intn(2000), false), "100644")
+		g.put(t, "é/d2.dat", g.bytes(200+g.r.Intn(2000), false), "100644")
+	}
 	if g.tracksBin(t) {
 		g.put(t, "f1.bin", g.bytes(10+g.r.Intn(3000), false), "100644")
 	}
